@@ -500,8 +500,15 @@ def check_C20(chk):
     for k in range(1000 if thorough else 40):
         n = rng.randint(1, 32)
         plan = [(rng.choice([0, 0, 1, 5, 50]), rng.choice([0, 1, 3, 20, 50]), rng.random() < 0.7) for _ in range(n)]
-        cases.append({"id": k + 1, "plan": plan, "threads": rng.randint(1, 8)})
-    lines = ["id=%d plan=%s threads=%d" % (c["id"], ";".join("%d,%d,%d" % (b, a, 1 if d else 0) for b, a, d in c["plan"]), c["threads"]) for c in cases]
+        poison = None
+        if k % 4 == 3:
+            cand = [i for i, (b, a, d) in enumerate(plan) if a >= 2]
+            if cand:
+                i = rng.choice(cand)
+                poison = (i, rng.randrange(0, plan[i][1] - 1))      # at least one proper message follows the undecodable one
+        cases.append({"id": k + 1, "plan": plan, "threads": rng.randint(1, 8), "poison": poison})
+    lines = ["id=%d plan=%s threads=%d%s" % (c["id"], ";".join("%d,%d,%d" % (b, a, 1 if d else 0) for b, a, d in c["plan"]), c["threads"],
+                                           (" poison=%d:%d" % c["poison"]) if c["poison"] else "") for c in cases]
     chunks = [list(range(len(cases)))[i::6] for i in range(6)]
     # abandoned streams: a consumer drops its stream while the sender keeps sending; other streams must not notice
     arecs, _, arc, aerr = C.run_harness(bins["async"], "async", ["id=9001 op=abandon rounds=%d k=3" % (2000 if thorough else 300),
@@ -528,8 +535,9 @@ def check_C20(chk):
         else:
             for x in r["results"]:
                 b, a, d = c["plan"][x["stream"]]
-                if x["bad"]:
-                    why = "stream %d yielded an undecodable item" % x["stream"]
+                want_bad = 1 if (c["poison"] and c["poison"][0] == x["stream"]) else 0
+                if x["bad"] != want_bad:
+                    why = "stream %d yielded %d undecodable items where %d were sent" % (x["stream"], x["bad"], want_bad)
                 elif [m[1] for m in x["items"]] != list(range(b + a)) or any(m[0] != x["stream"] for m in x["items"]):
                     why = "stream %d yielded %s instead of its %d messages once each in order" % (x["stream"], x["items"][:8], b + a)
                 elif d and not x["ended"]:
